@@ -40,7 +40,8 @@ LEVEL_TEXT = ('Every shipped file (yaml/, registered_envs/, examples/coin_env.ya
               'compared with the underlying function partially applied to the accepted subset of kw (junk parameters added). '
               'Systematic corruptions of every file (unknown names at every level, each required parameter deleted, 12 malformed '
               'shapes/layouts, 7 malformed colour/object/action lists, missing/extra top-level keys) must be rejected with '
-              'SchemaError or ValueError and must never build.')
+              'SchemaError or ValueError and must never build.'
+              ' Also: independent and interleaved builds, falsy parameters, valid variations (reordered keys and lists, nested composites, distance functions by name), custom-name corruptions, every gym id resolved by what it builds.')
 LEVEL_NOTE = ('Trusted: compose.py (independent interpreter). Not demanded: exception class for a malformed `area` and for an unknown '
               'custom module (outside the statement); unknown extra parameters are ignored by design.')
 SHARDS = {'quick': 4, 'thorough': 16}
